@@ -15,6 +15,7 @@ package main
 
 import (
 	"bytes"
+	"compress/gzip"
 	"context"
 	"encoding/json"
 	"fmt"
@@ -903,6 +904,31 @@ func closeE2E() {
 	}
 }
 
+var e4calls int
+
+func gz(b []byte) []byte {
+	var out bytes.Buffer
+	zw := gzip.NewWriter(&out)
+	zw.Write(b)
+	zw.Close()
+	return out.Bytes()
+}
+
+// unzip: a response that says it is gzip-encoded is decoded as the client's library would; one that says so and is
+// not, or the reverse, stays as it is and fails the comparison
+func unzip(r *stack.Resp) {
+	if r == nil || !strings.Contains(r.Header.Get("Content-Encoding"), "gzip") {
+		return
+	}
+	zr, err := gzip.NewReader(bytes.NewReader(r.Body))
+	if err != nil {
+		return
+	}
+	if b, err := io.ReadAll(zr); err == nil {
+		r.Body = b
+	}
+}
+
 func endToEnd(seq []ev, input string, x expect) {
 	for _, engine := range []string{"sherpa", "olla"} {
 		w := e2eFor(engine)
@@ -916,10 +942,26 @@ func endToEnd(seq []ev, input string, x expect) {
 		for _, e := range seq {
 			steps = append(steps, []byte(sseLine(e)))
 		}
+		// every fourth sequence meets a backend that compresses its answer for whoever asks for it (a server behind
+		// nginx, a gateway), and a client that says what its HTTP library says by default
+		e4calls++
+		zipped := e4calls%4 == 0
+		hdrs := [][2]string{{"Content-Type", "application/json"}, {"anthropic-version", "2023-06-01"}}
+		if zipped {
+			hdrs = append(hdrs, [2]string{"Accept-Encoding", "gzip, deflate"})
+			desc += " (the client accepts gzip, the backend compresses for a request that accepts it)"
+		}
 		w.be.Reset()
-		w.be.SetFixed(stack.Behaviour{Kind: "respond", Status: 200, Framing: "chunked", Steps: steps, Cut: -1, After: "complete", Headers: [][2]string{{"Content-Type", "text/event-stream"}}})
-		r := stack.Do(w.o.Addr, &stack.Req{Method: "POST", Target: "/olla/anthropic/v1/messages", Timeout: 10 * time.Second, Headers: [][2]string{{"Content-Type", "application/json"}, {"anthropic-version", "2023-06-01"}},
+		plain := stack.Behaviour{Kind: "respond", Status: 200, Framing: "chunked", Steps: steps, Cut: -1, After: "complete", Headers: [][2]string{{"Content-Type", "text/event-stream"}}}
+		w.be.SetPlan(func(q *stack.Request) stack.Behaviour {
+			if zipped && strings.Contains(q.Header("Accept-Encoding"), "gzip") {
+				return stack.Behaviour{Kind: "respond", Status: 200, Framing: "chunked", Body: gz(bytes.Join(steps, nil)), Cut: -1, After: "complete", Headers: [][2]string{{"Content-Type", "text/event-stream"}, {"Content-Encoding", "gzip"}}}
+			}
+			return plain
+		})
+		r := stack.Do(w.o.Addr, &stack.Req{Method: "POST", Target: "/olla/anthropic/v1/messages", Timeout: 10 * time.Second, Headers: hdrs,
 			Body: []byte(`{"model":"m-stream","max_tokens":64,"stream":true,"messages":[{"role":"user","content":"hi"}]}`)})
+		unzip(r)
 		res.Add("traces_validated_against_impl", 1)
 		res.Add("transitions", int64(len(seq)+1))
 		direct, derr, crash := runStream(input, 0)
@@ -957,9 +999,15 @@ func endToEnd(seq []ev, input string, x expect) {
 			"usage": map[string]any{"prompt_tokens": x.in, "completion_tokens": x.out, "total_tokens": x.in + x.out}}
 		cb, _ := json.Marshal(comp)
 		w.be.Reset()
-		w.be.SetFixed(stack.OK(string(cb)))
-		r = stack.Do(w.o.Addr, &stack.Req{Method: "POST", Target: "/olla/anthropic/v1/messages", Timeout: 10 * time.Second, Headers: [][2]string{{"Content-Type", "application/json"}, {"anthropic-version", "2023-06-01"}},
+		w.be.SetPlan(func(q *stack.Request) stack.Behaviour {
+			if zipped && strings.Contains(q.Header("Accept-Encoding"), "gzip") {
+				return stack.Behaviour{Kind: "respond", Status: 200, Framing: "cl", Body: gz(cb), Cut: -1, After: "complete", Headers: [][2]string{{"Content-Type", "application/json"}, {"Content-Encoding", "gzip"}}}
+			}
+			return stack.OK(string(cb))
+		})
+		r = stack.Do(w.o.Addr, &stack.Req{Method: "POST", Target: "/olla/anthropic/v1/messages", Timeout: 10 * time.Second, Headers: hdrs,
 			Body: []byte(`{"model":"m-stream","max_tokens":64,"messages":[{"role":"user","content":"hi"}]}`)})
+		unzip(r)
 		res.Add("traces_validated_against_impl", 1)
 		var compDoc map[string]any
 		json.Unmarshal(cb, &compDoc)
